@@ -226,7 +226,7 @@ impl Event {
   /// Returns `true` if this is a [build end event](Event::BuildEnd).
   pub fn is_build_end(&self) -> bool {
     match self {
-      Event::BuildStart => true,
+      Event::BuildEnd => true,
       _ => false,
     }
   }
